@@ -80,7 +80,10 @@ def raw_circuit(N, gates):
                 kw["targets"] = list(g.t)
             if g.c:
                 kw["controls"] = list(g.c)
-            qc.add_gate(GATE_CLASS_MAP[g.name](**kw))
+            # as a user writes it: the class from the public exports, no name argument
+            import qutip_qip.operations as OPS
+            cls = getattr(OPS, g.name, None) or getattr(OPS, g.name.upper(), None) or GATE_CLASS_MAP[g.name]
+            qc.add_gate(cls(**kw))
         elif form == "moved":
             other = QubitCircuit(N)
             other.add_gate(g.name, targets=(g.t or None), controls=(g.c or None), **kw)
